@@ -478,6 +478,9 @@ package rapid
 // preserved by the reset (stated as preservation, so that callers need not carry it).
 //@ func handleReset
 //@   requires execCtx != nil
+// C08: the names of the processes of a generation end in its number (watchEvents ignores exits of other generations): the
+// reset advances it, so that a late exit of a process it has shut down is not taken for an exit of the next generation
+//@   ensures [C08: the-generation-number-advances-with-the-reset] execCtx.runtimeDomainGeneration != old(execCtx.runtimeDomainGeneration)
 //@   ensures [at-most-one-runtime-done-per-invocation] old(rtDoneBooked(execCtx)) ==> rtDoneBooked(execCtx)
 //@   ensures [full-teardown-with-the-request's-deadline-and-reason] delta(FullShutdown) == 1 && lastarg(FullShutdown, 1) == execCtx && lastarg(FullShutdown, 2) == resetEvent.DeadlineNs && lastarg(FullShutdown, 3) == resetEvent.Reason
 //@   ensures [new-generation-after-the-teardown] execCtx.runtimeDomainGeneration == (old(execCtx.runtimeDomainGeneration) + 1) % 4294967296
